@@ -216,6 +216,10 @@ class PathCtx:
             if self._check() != z3.sat:
                 raise PathInfeasible()
             v = self.solver.model().eval(term, model_completion=True).as_long()
+            # candidates must not depend on the model the solver happens to return (paths are re-executed with a
+            # decision prefix): always branch on the SMALLEST feasible value
+            while self._check(term < v) == z3.sat:
+                v = self.solver.model().eval(term, model_completion=True).as_long()
             if self.decide(term == v):
                 return v
             n += 1
